@@ -33,6 +33,14 @@ CLAIMS = {
              'symbolic ids/arguments/returns, and all histories of 4 (thorough 5) emit/ACK operations on 2 namespaces '
              'against a reference table. Exhaustive within those bounds.',
         ref='5 C09', technique='symbolic execution (CrossHair+z3) of real client code over bounded histories'),
+    'C11': dict(
+        text='Bounded symbolic execution of real Server/AsyncServer + Manager over every client life of 3 (thorough 4) '
+             'operations (connects, refused connect, rooms, events, partial binary packets, unanswered callbacks, '
+             'malformed frames, client/server disconnects) with a symbolic fault position (which handler invocation '
+             'raises), ended by transport loss; afterwards all server containers are inspected for the transport and '
+             'its session ids and the state after the last client must equal the fresh state. The memory clause is '
+             'claimed as state equality, not as a heap measurement.',
+        ref='5 C11', technique='symbolic execution (CrossHair+z3) over bounded histories with a symbolic fault index'),
 }
 
 PENDING = 'check not built yet in this tree (work in progress); no claim is made'
